@@ -144,6 +144,11 @@ func (e *Engine) VerifyFunc(fn *ssa.Function, mode string) (rep *FuncReport) {
 				p.assume(t)
 			}
 		}
+		for _, cl := range fc.Captured {
+			if t, ok := c.evalClause(ec, cl, "captured of "+c.label); ok {
+				p.assume(t)
+			}
+		}
 		// vacuity: the precondition (with type facts and axioms) must be satisfiable
 		rep.Vacuity = append(rep.Vacuity, &Obligation{Name: c.label + "/vacuity/requires", Kind: "vacuity", Func: c.label, Ctx: c,
 			Assumes: append([]string(nil), p.assumes...), Goal: "false", WantSat: true, Props: fc.Props})
@@ -238,6 +243,7 @@ func (e *Engine) VerifyFunc(fn *ssa.Function, mode string) (rep *FuncReport) {
 				c.obs[len(c.obs)-1].Only = len(cl.Props) > 0
 			}
 		}
+		c.capturedAtExit(q, fc, fn, env, props)
 		c.exitChecks(q, fc, env, &entryHeap, props, false)
 	}
 	rep.Paths = len(outs)
@@ -724,3 +730,43 @@ func Discharge(obs []*Obligation, opt runOpts) []*ObResult {
 }
 
 var _ = time.Now
+
+// capturedAtExit: the `captured` invariants of this closure (over its own captured variables) and of every closure
+// it created on this path (over the variables those captured) hold when the function returns.
+func (c *FnCtx) capturedAtExit(q *Path, fc *FuncContract, fn *ssa.Function, env map[string]Val, props []string) {
+	if fc != nil && len(fc.Captured) > 0 {
+		cenv := map[string]Val{}
+		for k, v := range env {
+			cenv[k] = v
+		}
+		c.derefFreeVars(q, &q.heap, fn, cenv)
+		ec := &EvalCtx{c: c, p: q, env: cenv, heap: &q.heap, pkg: fn.Pkg.Pkg}
+		for i, cl := range fc.Captured {
+			t, _ := c.evalClause(ec, cl, "captured of "+c.label)
+			c.oblige(q, "post", "captured_"+clauseLabel(cl, i, "captured"), t, cl.Src, props)
+		}
+	}
+	for _, mc := range q.created {
+		c.capturedOf(q, mc.fn, mc.binds, "post", "_at_exit", props)
+	}
+}
+
+// capturedOf emits the `captured` invariants of closure fn for the given bindings, on the current heap.
+func (c *FnCtx) capturedOf(p *Path, fn *ssa.Function, binds []Val, kind, suffix string, props []string) {
+	fcc := c.eng.contractOf(fn)
+	if fcc == nil || len(fcc.Captured) == 0 {
+		return
+	}
+	env := map[string]Val{}
+	for i, fv := range fn.FreeVars {
+		if i < len(binds) {
+			env["&"+fv.Name()] = binds[i]
+		}
+	}
+	c.derefFreeVars(p, &p.heap, fn, env)
+	ec := &EvalCtx{c: c, p: p, env: env, heap: &p.heap, pkg: fn.Pkg.Pkg}
+	for i, cl := range fcc.Captured {
+		t, _ := c.evalClause(ec, cl, "captured of "+fullName(fn))
+		c.oblige(p, kind, "closure_"+shortName(fullName(fn))+"."+clauseLabel(cl, i, "captured")+suffix, t, cl.Src, props)
+	}
+}
